@@ -412,6 +412,7 @@ inductive Act
   | makeRequest (g : Goal) (x : Option Nat)
   | mutPush (b tag : Nat)
   | mutNotifyOne (b : Nat) (x : Option Nat)
+  | initSetEnabled (b : Nat) (v : Bool)
   | prepareSurrender
   | respawn
 deriving Repr
@@ -553,6 +554,12 @@ def step (c : Cfg) (s : State) : Act → Option State
     else none
   | .mutNotifyOne b x =>
     if b < c.L ∧ (s.bkt b).isOpen ∧ (s.bkt b).enabled then notifyOne c s x else none
+  | .initSetEnabled b v =>
+    -- plan construction (`ConcurrentImmix::new`) switches unused buckets off; a thread that is not a GC
+    -- worker never makes packets runnable this way
+    if b < c.L ∧ ¬ (c.info b).isFirstStw ∧ (v = false ∨ ¬ (s.bkt b).isOpen) then
+      some (setBkt s b { s.bkt b with enabled := v })
+    else none
   | .prepareSurrender =>
     -- WorkerGroup::prepare_surrender_buffer: assert!(Spawned)
     if s.creation = .spawned then some { s with creation := .surrendered 0 } else none
